@@ -11,8 +11,6 @@ from __future__ import annotations
 
 from typing import Optional, Sequence, Tuple, Union
 
-import numpy as np
-
 import jax
 
 from typing_extensions import TypeGuard
@@ -139,7 +137,7 @@ class VerticalStack(Operator):
             raise ValueError("Cannot stack Operators with nested output shapes.")
 
         output_dtypes = [op.output_dtype for op in ops]
-        if not np.all(output_dtypes[0] == s for s in output_dtypes):
+        if not all(output_dtypes[0] == s for s in output_dtypes):
             raise ValueError("Expected all Operators to have the same output dtype.")
 
     def _eval(self, x: Array) -> Union[Array, BlockArray]:
@@ -228,8 +226,14 @@ class DiagonalStack(Operator):
         if any([is_nested(op.shape[0]) for op in ops]):
             raise ValueError("Cannot stack Operators with nested output shapes.")
 
+        input_dtypes = [op.input_dtype for op in ops]
+        if not all(input_dtypes[0] == s for s in input_dtypes):
+            raise ValueError(
+                "Expected all Operators to have the same input dtype, " f"but got {input_dtypes}."
+            )
+
         output_dtypes = [op.output_dtype for op in ops]
-        if not np.all(output_dtypes[0] == s for s in output_dtypes):
+        if not all(output_dtypes[0] == s for s in output_dtypes):
             raise ValueError("Expected all Operators to have the same output dtype.")
 
     def _eval(self, x: Union[Array, BlockArray]) -> Union[Array, BlockArray]:
